@@ -392,7 +392,8 @@ where
                 Some(t) => rest.push(conv(t)),
             }
             back = !back;
-            if rest.len() > 4096 {
+            // (guard against an iterator that never ends: a little beyond what its clone counted)
+            if rest.len() as i64 > count_at_clone.max(0) + 64 {
                 break;
             }
         }
